@@ -132,6 +132,116 @@ namespace w17 {
 
 using namespace verif;
 
+// ---- tight-loop workload: one small library call repeated a few hundred times on thread-private objects, so that threads
+// spend their time INSIDE the same few functions at the same moment (the mixed workloads above spread over the whole
+// library and leave short windows almost untouched). Every iteration's result goes into the sub-case fingerprint.
+namespace micro {
+using namespace Tins;
+typedef std::vector<uint8_t> Bytes;
+namespace wcap = w09::wcap;   // (the capture tables were first included inside the C09 workload's namespace)
+
+static std::unique_ptr<PDU> frame_pdu(const wcap::Frame& f) { return std::unique_ptr<PDU>(Dot11::from_bytes(f.data, (uint32_t)f.size)); }
+
+// the four-way handshake of one of libtins' own captured sessions (frames 1..4 of the capture)
+static bool captured_handshake(const wcap::Frame* fr, RSNHandshake& out) {
+    RSNHandshakeCapturer cap;
+    for (size_t i = 1; i <= 4; ++i) { std::unique_ptr<PDU> p = frame_pdu(fr[i]); if (p) cap.process_packet(*p); }
+    if (cap.handshakes().empty()) return false;
+    out = cap.handshakes().front();
+    return true;
+}
+
+void prop(Src& s, Ctx& ctx) {
+    unsigned op = s.u8() % 7;
+    unsigned n = 60 + 4 * (unsigned)s.u8();     // 60 .. 1080 iterations
+    unsigned v = s.u8();
+    uint64_t acc = op * 1000003ULL + n;
+    switch (op) {
+        case 0: case 1: {   // WPA2 session keys from a captured handshake (PRF + MIC check), CCMP or TKIP capture
+            const bool ccmp = op == 0;
+            RSNHandshake hs;
+            if (!captured_handshake(ccmp ? wcap::CCMP : wcap::TKIP, hs)) { ctx.result((uint64_t)0xdead); break; }
+            const Bytes& pmk = w09::g_pool[ccmp ? 0 : 2].pmk;
+            for (unsigned i = 0; i < n; ++i) {
+                try {
+                    Crypto::WPA2::SessionKeys k(hs, pmk);
+                    acc = hash_mix(acc, hash_bytes(k.get_ptk().data(), k.get_ptk().size()) + k.uses_ccmp());
+                } catch (const exception_base&) { acc = hash_mix(acc, 0xbad0 + i); }
+            }
+            break;
+        }
+        case 2: {   // decryption of the captured data frames with keys learned from the handshake (whole WPA2Decrypter path)
+            Crypto::WPA2Decrypter dec;
+            dec.add_ap_data(w09::g_pool[0].pass, w09::g_pool[0].ssid);
+            for (size_t i = 0; i < wcap::CCMP_COUNT; ++i) { std::unique_ptr<PDU> p = frame_pdu(wcap::CCMP[i]); if (p) dec.decrypt(*p); }
+            Crypto::WPA2Decrypter::keys_map keys = dec.get_keys();
+            for (unsigned i = 0; i < n / 4; ++i) {
+                Crypto::WPA2Decrypter d2;
+                for (Crypto::WPA2Decrypter::keys_map::const_iterator it = keys.begin(); it != keys.end(); ++it) d2.add_decryption_keys(it->first, it->second);
+                for (size_t f = 5; f < wcap::CCMP_COUNT; ++f) {
+                    std::unique_ptr<PDU> p = frame_pdu(wcap::CCMP[f]);
+                    bool ok = p && d2.decrypt(*p);
+                    acc = hash_mix(acc, ok);
+                    if (ok) { Bytes y = p->serialize(); acc = hash_mix(acc, hash_bytes(y.data(), y.size())); }
+                }
+            }
+            break;
+        }
+        case 3: {   // WEP
+            for (unsigned i = 0; i < n; ++i) {
+                std::unique_ptr<PDU> p = frame_pdu(wcap::WEP[0]);
+                Crypto::WEPDecrypter dec;
+                const Dot11Data* d = p ? p->find_pdu<Dot11Data>() : nullptr;
+                if (d) { dec.add_password(d->addr2(), std::string(5, '\x1f')); dec.add_password(d->addr1(), std::string(5, '\x1f')); dec.add_password(d->addr3(), std::string(5, '\x1f')); }
+                bool ok = p && dec.decrypt(*p);
+                acc = hash_mix(acc, ok);
+                if (ok) { Bytes y = p->serialize(); acc = hash_mix(acc, hash_bytes(y.data(), y.size())); }
+            }
+            break;
+        }
+        case 4: {   // text forms of addresses
+            for (unsigned i = 0; i < n; ++i) {
+                IPv4Address a4((uint32_t)(i * 2654435761u + v));
+                uint8_t b[16]; for (unsigned k = 0; k < 16; ++k) b[k] = (uint8_t)((i + v) * (k + 3) >> (k & 3));
+                IPv6Address a6(b);
+                HWAddress<6> hw(b);
+                std::string t = a4.to_string() + "|" + a6.to_string() + "|" + hw.to_string();
+                acc = hash_mix(acc, hash_str(t));
+                acc = hash_mix(acc, (uint32_t)IPv4Address(a4.to_string()) + IPv6Address(a6.to_string()).is_multicast());
+            }
+            break;
+        }
+        case 5: {   // checksums: serialisation of a small TCP/IPv4 and ICMPv6/IPv6 packet
+            for (unsigned i = 0; i < n; ++i) {
+                IP ip = IP("10.0.0.1", "10.0.0.2") / TCP(80, (uint16_t)(1024 + i)) / RawPDU(std::string(1 + (i + v) % 37, (char)('a' + i % 23)));
+                Bytes y = ip.serialize();
+                IPv6 i6 = IPv6("fe80::1", "fe80::2") / ICMPv6(ICMPv6::ECHO_REQUEST) / RawPDU(std::string(1 + (i + v) % 29, 'x'));
+                Bytes z = i6.serialize();
+                acc = hash_mix(acc, hash_bytes(y.data(), y.size()) ^ hash_bytes(z.data(), z.size()));
+            }
+            break;
+        }
+        default: {   // DNS names
+            for (unsigned i = 0; i < n; ++i) {
+                DNS d;
+                std::string name = "h" + std::to_string(i + v) + ".example.org";
+                d.add_query(DNS::query(name, DNS::A, DNS::IN));
+                d.add_answer(DNS::resource(name, "1.2.3.4", DNS::A, DNS::IN, 60));
+                Bytes y = d.serialize();
+                DNS back(y.data(), (uint32_t)y.size());
+                acc = hash_mix(acc, hash_bytes(y.data(), y.size()) + back.answers().size() + hash_str(back.queries().at(0).dname()));
+                acc = hash_mix(acc, hash_str(DNS::encode_domain_name(name)));
+            }
+            break;
+        }
+    }
+    ctx.result(acc);
+    ctx.hash(op);
+    ctx.label("micro-op-" + std::to_string(op));
+    ctx.nontrivial(true);
+}
+}  // namespace micro
+
 const char* const PROP_ID = "C18";
 const size_t PROP_MAXLEN_QUICK = 96;
 const size_t PROP_MAXLEN_THOROUGH = 128;
@@ -169,6 +279,7 @@ std::vector<Sub>& subs() {
         {"C11", w11::prop, w11::prop_setup, 300, "corpus/C11", {}},
         {"C15", w15::prop, w15::prop_setup, 200, nullptr, {}},
         {"C17", w17::prop, no_setup, 600, nullptr, {}},
+        {"MICRO", micro::prop, no_setup, 3, nullptr, {}},
     };
     return S;
 }
